@@ -8,6 +8,22 @@ import gfapy
 ALPHABET = "SLHE#\t+*1:Ai, $"
 
 
+VALUE_CTORS = {
+    "gfapy.OrientedLine": lambda t: gfapy.OrientedLine(t),
+    "gfapy.SegmentEnd": lambda t: gfapy.SegmentEnd(t),
+    "gfapy.Alignment": lambda t: gfapy.Alignment(t),
+    "gfapy.Alignment(gfa1)": lambda t: gfapy.Alignment(t, version="gfa1"),
+    "gfapy.LastPos": lambda t: gfapy.LastPos(t),
+    "gfapy.ByteArray": lambda t: gfapy.ByteArray(t),
+    "gfapy.NumericArray.from_string": lambda t: gfapy.NumericArray.from_string(t),
+    "gfapy.CIGAR._from_string": lambda t: gfapy.CIGAR._from_string(t),
+    "gfapy.Trace._from_string": lambda t: gfapy.Trace._from_string(t),
+    "gfapy.Placeholder-or-sequence": lambda t: gfapy.sequence.rc(t),
+    "gfapy.CIGAR.Operation": lambda t: gfapy.CIGAR.Operation(t[:-1], t[-1:]),
+}
+VALUE_ALPHABET = "1M+-*,$Aa 0c"
+
+
 def where(e):
     tb = traceback.extract_tb(e.__traceback__)
     for fr in reversed(tb):
@@ -95,6 +111,21 @@ def check(case):
             g.to_gfa1()
         attempt("groups", f, fails, c)
         return dict(key=("groups", tuple(lines), vlevel), nontrivial=True, failures=fails, sample=dict(lines=lines))
+    if kind == "value":
+        _, ctor, text = case
+        c = dict(constructor=ctor, text=text, repro="import gfapy\n%s(%r)" % (ctor, text))
+        def f():
+            v = VALUE_CTORS[ctor](text)
+            str(v); repr(v)
+            for q in ("validate", "complement", "invert", "name", "line", "orient", "length_on_reference", "is_last", "value"):
+                if hasattr(v, q):
+                    try:
+                        a = getattr(v, q)
+                        a() if callable(a) else None
+                    except gfapy.Error:
+                        pass
+        attempt("value-" + ctor, f, fails, c)
+        return dict(key=case, nontrivial=len(text) > 0, failures=fails, sample=dict(constructor=ctor, text=text))
     if kind == "api":
         _, version, ids, op, arg, vlevel = case
         lines = universe.lines_of(version, ids)
@@ -118,6 +149,17 @@ def check(case):
                 if g.line(name) is None:
                     return
                 g.line(name).get(field); g.line(name).try_get(field)
+            elif op == "field-queries":
+                name, field = arg
+                l = g.line(name)
+                if l is None:
+                    return
+                for q in (l.get_datatype, l.validate_field, l.field_to_s, l.try_get, l.delete):
+                    try:
+                        q(field)
+                    except gfapy.Error:
+                        pass
+                str(g)
             elif op == "rename":
                 name, new = arg
                 if g.line(name) is None:
@@ -203,6 +245,17 @@ def cases(tier, seed):
                 for vlevel in (0, 1, 3):
                     out.append(("doc", ["S\tA\t8\t*", "S\tB\t8\t*", el], vlevel))
                     out.append(("doc", [el, "S\tA\t8\t*", "S\tB\t8\t*"], vlevel))
+    # strings handed to the constructors / parsers of the value classes
+    vstrings = [""]
+    for k in range(1, 4 if tier == "quick" else 5):
+        vstrings.extend("".join(t) for t in itertools.product(VALUE_ALPHABET, repeat=k))
+    for ctor in VALUE_CTORS:
+        for t in (vstrings if tier != "quick" else [""] + rng.sample(vstrings, 250)):
+            out.append(("value", ctor, t))
+    # identifiers at the limits of integer conversion (Python refuses int() of more than 4300 digits)
+    for digits in (4299, 4301, 5000):
+        for version, tail in (("gfa1", "\t*"), ("gfa2", "\t8\t*")):
+            out.append(("doc", ["S\t" + "9" * digits + tail, "S\t7" + tail], 1))
     nmut = 10 if tier == "quick" else 30
     for version in ("gfa1", "gfa2"):
         cat = universe.CAT[version]
@@ -240,6 +293,7 @@ def cases(tier, seed):
                 for n in ("A", "B", "p1", "e1", "g1"):
                     for f in fields:
                         out.append(("api", version, ids, "get", (n, f), vlevel))
+                        out.append(("api", version, ids, "field-queries", (n, f), vlevel))
     return out
 
 
@@ -248,7 +302,7 @@ if __name__ == "__main__":
     cs = cases(tier, seed)
     res = harness.run(cs, check,
                       rule="(a) every string of length <=%d over %r as a line (Line(), add_line on an empty Gfa, write, validate, read of every field) at a seeded vlevel/version; "
-                           "(b) every catalogue line's closed document at vlevel 0-3 and its single-point mutations; (c) strings handed to line/segment/rm/rename/set/get on catalogue Gfas. "
+                           "(b) every catalogue line's closed document at vlevel 0-3 and its single-point mutations; (c) strings handed to line/segment/rm/rename/set/get/get_datatype/validate_field/field_to_s/delete on catalogue Gfas; (d) strings handed to the constructors and parsers of the value classes (OrientedLine, SegmentEnd, Alignment, LastPos, ByteArray, NumericArray, CIGAR, Trace). "
                            "A failure is any exception that is not a gfapy.Error. distinct = distinct input" % (3 if tier == "quick" else 4, ALPHABET),
                       bound="line strings of length <=%d exhaustively; mutations and API strings sampled with VERIF_SEED" % (3 if tier == "quick" else 4), exhaustive=False)
     harness.emit(res)
